@@ -12,20 +12,20 @@ import (
 // role from them.
 type Roles struct {
 	Stream, ErrorM, SetPos, NewStreamer *ssa.Function
-	GetPos                             *ssa.Function // callee of parser init: loads nowPos
-	Parser                             *ssa.Function
-	ParserCall                         *ssa.Call // the call of Parser inside Stream
-	Commit, Begin                      *ssa.Function
-	CommitMC, BeginMC                  *ssa.MakeClosure
-	Pos, Tran, Auto, Err               *Cell
-	Tables                             ssa.Value // the make(map[uint64]*tableCache)
-	Select                             *ssa.Select
-	RawEv                              ssa.Value // the event extracted from the select
-	IsValidCall                        *ssa.Call
-	StripCall                          *ssa.Call
-	StrippedEv                         ssa.Value
-	FormatPhi                          ssa.Value // the `format` variable at the loop head
-	LoopHead                           *ssa.BasicBlock
+	GetPos                              *ssa.Function // callee of parser init: loads nowPos
+	Parser                              *ssa.Function
+	ParserCall                          *ssa.Call // the call of Parser inside Stream
+	Commit, Begin                       *ssa.Function
+	CommitMC, BeginMC                   *ssa.MakeClosure
+	Pos, Tran, Auto, Err                *Cell
+	Tables                              ssa.Value // the make(map[uint64]*tableCache)
+	Select                              *ssa.Select
+	RawEv                               ssa.Value // the event extracted from the select
+	IsValidCall                         *ssa.Call
+	StripCall                           *ssa.Call
+	StrippedEv                          ssa.Value
+	FormatPhi                           ssa.Value // the `format` variable at the loop head
+	LoopHead                            *ssa.BasicBlock
 
 	NewConn, StartDump, Reader, ReadEvent, Prepare, CloseConn *ssa.Function
 	GoInstr                                                   *ssa.Go
